@@ -77,6 +77,12 @@ func crashKind(kind string) (int, uint64, uint64) {
 		return 3, 3, 7
 	case "legacyStore": // the store was written in the released on-disk format (raw SQL), not by the code under test
 		return 3, 3, 7
+	case "zeroFirst": // the size-0 placeholder: first use
+		return -1, 0, 0
+	case "zeroRefresh": // and a refresh of it (Update's own branch)
+		return 0, 0, 0
+	case "growthAfterGrowth": // the serving process has ACCEPTED an update for this log just before (3 -> 5), then 5 -> 8
+		return 3, 5, 8
 	}
 	return 3, 3, 7
 }
@@ -152,6 +158,15 @@ func scenarioCrashChild(t *traceWriter, rng *rand.Rand) {
 			_, _ = w.Update(bgctx, id, 1, signNote(cpText(c.origin, 6, c.tr.root(6)), c.key.signer), c.tr.consistency(1, 6))
 			_, _ = w.Update(bgctx, id, 3, signNote(cpText(c.origin, 3, c.tr.root(4)), c.key.signer), [][]byte{})
 		}
+		if baseKind == "growthAfterGrowth" {
+			// accepted by the same process, over the same connection: what it leaves behind must not weaken the next one
+			if _, err := w.Update(bgctx, id, 3, signNote(cpText(c.origin, 5, c.tr.root(5)), c.key.signer), c.tr.consistency(3, 5)); err != nil {
+				panic(err)
+			}
+			if b, err := w.GetCheckpoint(id); err == nil {
+				fmt.Printf("MID %s\n", hx(b))
+			}
+		}
 		drvCtl.take()
 		drvCtl.mu.Lock()
 		drvCtl.count = 0
@@ -224,7 +239,7 @@ func scenarioCrash(t *traceWriter, rng *rand.Rand) {
 	scratch := scratchDir()
 	defer os.RemoveAll(scratch)
 	n := 0
-	for _, kind := range []string{"firstUse", "growth", "refresh", "growthAfterRefusal", "legacyStore"} {
+	for _, kind := range []string{"firstUse", "growth", "refresh", "growthAfterRefusal", "legacyStore", "zeroFirst", "zeroRefresh", "growthAfterGrowth"} {
 		// dry run: how many driver events does this update have
 		db := filepath.Join(scratch, fmt.Sprintf("dry-%s.db", kind))
 		runChild(db, "setup", kind, 0)
@@ -256,6 +271,7 @@ func scenarioCrash(t *traceWriter, rng *rand.Rand) {
 			if len(grab(run, "EVENTS ")) == 1 {
 				killed = 0
 			}
+			before = midState(before, run, id)
 			t.line("CR kind=%s killat=%d total=%d ops=%s old=%d acked=%d killed=%d log=%s submitted=%s legacy=%s before=%s => after=%s",
 				kind, k, total, ops, old, acked, killed, hx([]byte(id)), hx([]byte(submitted)), legacy,
 				strings.ReplaceAll(strings.Join(append(grab(before, "STATE "), grab(before, "LOGS ")...), ";"), " ", ":"),
@@ -271,6 +287,7 @@ func scenarioCrash(t *traceWriter, rng *rand.Rand) {
 			before := runChild(db, "read", kind, 0)
 			run := runChild(db, "run", kind+"!"+fop, 0)
 			after := runChild(db, "read", kind, 0)
+			before = midState(before, run, id)
 			acked := 0
 			if a := grab(run, "ACK "); len(a) == 1 && strings.HasPrefix(a[0], "err=false") {
 				acked = 1
@@ -282,4 +299,30 @@ func scenarioCrash(t *traceWriter, rng *rand.Rand) {
 			os.Remove(db)
 		}
 	}
+}
+
+// midState: when the child committed an update of its own before the one under test (MID line), the state the update
+// under test started from is that one.
+func midState(before, run, id string) string {
+	if mid := grab(run, "MID "); len(mid) == 1 {
+		return strings.Replace(before, "STATE "+id+" "+firstField(grabState(before, id)), "STATE "+id+" "+mid[0], 1)
+	}
+	return before
+}
+
+// grabState: the "<hex> <opens>" part of the STATE line of a log in a child's read output.
+func grabState(out, id string) string {
+	for _, l := range grab(out, "STATE ") {
+		if strings.HasPrefix(l, id+" ") {
+			return strings.TrimPrefix(l, id+" ")
+		}
+	}
+	return ""
+}
+
+func firstField(s string) string {
+	if i := strings.IndexByte(s, ' '); i >= 0 {
+		return s[:i]
+	}
+	return s
 }
